@@ -80,3 +80,8 @@ Example C09_replay_all_shapes_nonvacuous :
   mx_resolve_arguments mx_w_env2 mx_w_cmd2 (Some mx_w_args2) =
     MxCmdArr [[99]; [118; 32; 39]; [45; 107]; [118; 32; 39]; [45; 108]; [120]; [45; 108]; [121; 32; 122]].
 Proof. exact mx_replay_witness_all_shapes. Qed.
+
+(* ... and the environment of that example satisfies the hypothesis mx_no_nested_missing (for ALL macro names), so the
+   theorem C09_replay_equals_local_all_shapes applies to it with every premise discharged *)
+Example C09_replay_all_shapes_nonvacuous_hyp : mx_no_nested_missing mx_w_env2 2.
+Proof. exact mx_w_env2_no_nested_missing. Qed.
